@@ -374,6 +374,7 @@ func (w *World) runJob(job *Job) (res *Result) {
 		ex.depth, ex.maxDepth, ex.obs, ex.labels, ex.pathExcl, ex.writes = 0, 0, nil, nil, false, nil
 		ex.toUpperMemo = map[string]*StrV{}
 		ex.known = map[*Term]bool{}
+		ex.inflight = nil
 		ex.dom = newDom()
 		pe := ex.runOnce(func() { ex.call(fn, args, nil) })
 		ex.rollback()
